@@ -441,6 +441,43 @@ mod decoders {
         })();
         fin(r, dbg_head)
     }
+    /// read.rs::read_bytes / read_slice driven directly: input = offset u64 LE | count u64 LE | data.
+    /// The summary is compared with Model/WscReadPA.v (base = address of the data modulo 2^16).
+    fn wsc_read(b: &[u8]) -> Outcome {
+        use warp_core::wsc::read::{read_bytes, read_slice};
+        use warp_core::wsc::types::{NodeRow, Range};
+        if b.len() < 16 {
+            super::mark();
+            return Err("short".into());
+        }
+        let off = u64::from_le_bytes(b[0..8].try_into().unwrap());
+        let cnt = u64::from_le_bytes(b[8..16].try_into().unwrap());
+        // 8-aligned copy of the data so that the base alignment is meaningful and reported
+        let words = (b.len() - 16 + 7) / 8;
+        let mut store: Vec<u64> = vec![0; words.max(1)];
+        let data: &mut [u8] = &mut bytemuck_bytes(&mut store)[..b.len() - 16];
+        data.copy_from_slice(&b[16..]);
+        let data: &[u8] = data;
+        let base = (data.as_ptr() as usize) % 65536;
+        let f = |r: Result<(usize, usize), warp_core::wsc::ReadError>| match r {
+            Ok((s, l)) => format!("ok:{s}:{l}"),
+            Err(warp_core::wsc::ReadError::SectionOutOfBounds { .. }) => "oob".to_string(),
+            Err(warp_core::wsc::ReadError::Alignment(_)) => "cast".to_string(),
+            Err(e) => format!("other:{}", dbg_head(&e)),
+        };
+        let p0 = data.as_ptr() as usize;
+        let rb = f(read_bytes(data, off, cnt, "x").map(|s| (s.as_ptr() as usize - p0, s.len())));
+        let rr = f(read_slice::<Range>(data, off, cnt, "x").map(|s| (s.as_ptr() as usize - p0, s.len() * 16)));
+        let rn = f(read_slice::<NodeRow>(data, off, cnt, "x").map(|s| (s.as_ptr() as usize - p0, s.len() * 64)));
+        super::mark();
+        Ok(format!("base:{base},len:{},off:{off},cnt:{cnt},bytes:{rb},range:{rr},node:{rn}", data.len()))
+    }
+    fn bytemuck_bytes(v: &mut [u64]) -> &mut [u8] {
+        // safe reinterpretation of u64 storage as bytes
+        let len = v.len() * 8;
+        unsafe { std::slice::from_raw_parts_mut(v.as_mut_ptr() as *mut u8, len) }
+    }
+
     fn wsc_store_env(b: &[u8]) -> Outcome {
         fin(warp_core::wsc::WscStoreEnvelope::decode(b), dbg_head)
     }
@@ -555,6 +592,7 @@ mod decoders {
         ("wal-segment-rw", wal_segment_rw),
         ("wsc", wsc),
         ("wsc-view", wsc_view),
+        ("wsc-read", wsc_read),
         ("wsc-store-env", wsc_store_env),
         ("wsc-projection", wsc_projection),
         ("scene-delta", scene_delta),
@@ -848,6 +886,13 @@ mod decoders {
             seed("wal-segment-rw", &b);
         }
         // WSC
+        {
+            let mut v = Vec::new();
+            v.extend_from_slice(&16u64.to_le_bytes());
+            v.extend_from_slice(&2u64.to_le_bytes());
+            v.extend_from_slice(&[7u8; 200]);
+            seed("wsc-read", &v);
+        }
         for b in wsc_seeds() {
             seed("wsc", &b);
             seed("wsc-view", &b);
@@ -1035,26 +1080,58 @@ fn run_child(exe: &str, cases: &[String], o: &Opts) -> (Vec<String>, Option<Stri
     let mut lines = Vec::new();
     let mut verdict = None;
     let mut timed_out = false;
+    let pid = ch.id();
+    // CPU seconds (user+sys) consumed by the child so far: the per-input budget is CPU time, so a
+    // loaded host cannot turn a healthy decoder into a TIMEOUT; wall time only has a generous hard cap.
+    let cpu_ms = |pid: u32| -> Option<u64> {
+        let st = std::fs::read_to_string(format!("/proc/{pid}/stat")).ok()?;
+        let rest = st.rsplit_once(')')?.1;
+        let f: Vec<&str> = rest.split_whitespace().collect();
+        let ut: u64 = f.get(11)?.parse().ok()?;
+        let stt: u64 = f.get(12)?.parse().ok()?;
+        Some((ut + stt) * 10)
+    };
+    let wait_line = |rx: &mpsc::Receiver<Ev>, budget_ms: u64| -> Result<Ev, bool> {
+        // Err(true) = stalled, Err(false) = disconnected
+        let start_cpu = cpu_ms(pid).unwrap_or(0);
+        let t0 = std::time::Instant::now();
+        loop {
+            match rx.recv_timeout(Duration::from_millis(500)) {
+                Ok(ev) => return Ok(ev),
+                Err(mpsc::RecvTimeoutError::Disconnected) => return Err(false),
+                Err(mpsc::RecvTimeoutError::Timeout) => {
+                    let wall = t0.elapsed().as_millis() as u64;
+                    let used = cpu_ms(pid).map(|c| c.saturating_sub(start_cpu));
+                    let over = match used {
+                        Some(u) => u >= budget_ms || wall >= budget_ms * 30,
+                        None => wall >= budget_ms,
+                    };
+                    if over {
+                        return Err(true);
+                    }
+                }
+            }
+        }
+    };
     while lines.len() < cases.len() {
-        // generous while the child parses/expands the next input, strict once a case has started
-        match rx.recv_timeout(Duration::from_millis(o.timeout_ms * 3)) {
-            Ok(Ev::Start) => match rx.recv_timeout(Duration::from_millis(o.timeout_ms)) {
+        match wait_line(&rx, o.timeout_ms * 3) {
+            Ok(Ev::Start) => match wait_line(&rx, o.timeout_ms) {
                 Ok(Ev::Line(l)) => lines.push(l),
                 Ok(Ev::Start) => {}
-                Err(mpsc::RecvTimeoutError::Timeout) => {
+                Err(true) => {
                     timed_out = true;
                     let _ = ch.kill();
                     break;
                 }
-                Err(mpsc::RecvTimeoutError::Disconnected) => break,
+                Err(false) => break,
             },
             Ok(Ev::Line(l)) => lines.push(l),
-            Err(mpsc::RecvTimeoutError::Timeout) => {
+            Err(true) => {
                 timed_out = true;
                 let _ = ch.kill();
                 break;
             }
-            Err(mpsc::RecvTimeoutError::Disconnected) => break,
+            Err(false) => break,
         }
     }
     if lines.len() >= cases.len() {
@@ -1074,7 +1151,7 @@ fn run_child(exe: &str, cases: &[String], o: &Opts) -> (Vec<String>, Option<Stri
     let dec = m.get("dec").cloned().unwrap_or_default();
     let len = expand(m.get("in").map(String::as_str).unwrap_or("-")).len();
     let (class, detail) = if timed_out {
-        ("TIMEOUT", format!("no-result-within-{}ms", o.timeout_ms))
+        ("TIMEOUT", format!("no-result-within-{}ms-cpu", o.timeout_ms))
     } else if err.contains("has overflowed its stack") {
         ("STACK", "stack-overflow".to_string())
     } else if let Some(p) = err.find("memory allocation of ") {
